@@ -145,6 +145,35 @@ pub fn run(rep: &Report) -> serde_json::Value {
     let seqs = conv_seqs(if thorough { 3 } else { 2 });
     let idv = ids(thorough);
     let seen: Mutex<HashSet<Vec<u8>>> = Mutex::new(HashSet::new());
+    // re-emission does not depend on what the encoder was asked before, nor on how the writer takes the bytes: on one thread,
+    // a refused term (a reference with more id words than the format can count) between two encodings of the same identifier;
+    // and encode_to_writer into a writer that accepts three bytes per call
+    {
+        struct Dribble(Vec<u8>);
+        impl std::io::Write for Dribble {
+            fn write(&mut self, buf: &[u8]) -> std::io::Result<usize> { let n = buf.len().min(3); self.0.extend_from_slice(buf.get(..n).unwrap_or(&[])); Ok(n) }
+            fn flush(&mut self) -> std::io::Result<()> { Ok(()) }
+        }
+        let too_wide = OwnedTerm::Reference(erltf::types::ExternalReference::new(erltf::types::Atom::new("n@h"), 1, vec![7; 65536]));
+        for v in idv.iter() {
+            for (_, b, _) in forms(v).iter() {
+                let mut x = vec![131]; x.extend_from_slice(b);
+                let Ok(t) = erltf::decode(&x) else { continue };
+                rep.add("evaluations", 1);
+                let before = erltf::encode(&t).ok();
+                let refused = erltf::encode(&too_wide).is_err();
+                let after = erltf::encode(&t).ok();
+                if before != after {
+                    rep.violation("re-emitted identifier depends on what the encoder was asked before", json!({"id": v.short(), "a_refused_term_in_between": refused, "before": before.as_ref().map(|b| hex(b)), "after": after.as_ref().map(|b| hex(b))}));
+                }
+                let mut w = Dribble(vec![]);
+                let r = erltf::encode_to_writer(&t, &mut w);
+                if r.is_ok() && Some(&w.0) != before.as_ref() {
+                    rep.violation("encode_to_writer into a writer that accepts a few bytes per call writes other bytes than encode", json!({"id": v.short(), "encode": before.as_ref().map(|b| hex(b)), "written": hex(&w.0)}));
+                }
+            }
+        }
+    }
     idv.par_iter().for_each(|v| {
         let fs = forms(v);
         // equality / hash / order across forms
